@@ -24,6 +24,7 @@ import (
 
 // Prog is one loaded, type-checked and SSA-built configuration of the tree.
 type Prog struct {
+	marks *[]c01Mark // high-water marks (c01height.go), computed once
 	Opts LoadOpts // how the tree was loaded (a rule that needs the tree of another platform loads it the same way)
 	Dir   string
 	Fset  *token.FileSet
